@@ -237,7 +237,52 @@ func sortSliceIntrinsic(in *Interp, fn *ssa.Function, a []Value) Value {
 	return nil
 }
 
+// errors.Is: identity comparison along the Unwrap chain (the targets in this code base are package-level
+// sentinel errors, i.e. pointers); Is methods are not consulted.
+func errorsIs(in *Interp, fn *ssa.Function, a []Value) Value {
+	err, target := a[0].(Iface), a[1].(Iface)
+	if target.T == nil {
+		return BoolConst(err.T == nil)
+	}
+	for depth := 0; depth < 16 && err.T != nil; depth++ {
+		if types.Identical(err.T, target.T) {
+			c := in.equals(err.V, target.V)
+			if c.IsTrue() {
+				return tTrue
+			}
+		}
+		// *fmt.wrapError{msg, err}
+		if p, ok := err.V.(*Value); ok && p != nil {
+			if st, ok := (*p).(Struct); ok && len(st) == 2 {
+				if inner, ok := st[1].(Iface); ok && strings.HasSuffix(err.T.String(), "fmt.wrapError") {
+					err = inner
+					continue
+				}
+			}
+		}
+		// any other type with an Unwrap() error method
+		ms := in.prog.MethodSets.MethodSet(err.T)
+		var unwrap *ssa.Function
+		for i := 0; i < ms.Len(); i++ {
+			if ms.At(i).Obj().Name() == "Unwrap" {
+				unwrap = in.prog.MethodValue(ms.At(i))
+			}
+		}
+		if unwrap == nil {
+			break
+		}
+		r := in.call(unwrap, []Value{err.V})
+		next, ok := r.(Iface)
+		if !ok {
+			break
+		}
+		err = next
+	}
+	return tFalse
+}
+
 func init() {
+	intrinsics["errors.Is"] = errorsIs
 	intrinsics["sort.Slice"] = sortSliceIntrinsic
 	intrinsics["sort.SliceStable"] = sortSliceIntrinsic
 	// math on concrete operands is executed natively; symbolic floats in these functions are not encodable
